@@ -80,6 +80,7 @@ type PureFn struct {
 	PkgPath string
 	File    string
 	Line    int
+	Opaque  bool // emitted as an uninterpreted function with a definitional axiom (good E-matching triggers)
 }
 
 type Axiom struct {
@@ -249,11 +250,12 @@ func (cs *ContractSet) ParseFile(path, pkgPath string) error {
 			tc := &TypeContract{Name: strings.TrimSpace(rest), PkgPath: pkgPath, Guarded: map[string]string{}}
 			cs.Types[pkgPath+"::"+tc.Name] = tc
 			curFn, curTy, curLoop, curHook = nil, tc, nil, nil
-		case "pure":
+		case "pure", "spec":
 			p, err := parsePure(rest, path, line)
 			if err != nil {
 				return err
 			}
+			p.Opaque = word == "spec"
 			p.PkgPath = pkgPath
 			cs.Pures[p.Name] = p
 			lastExpr = &p.Body
